@@ -77,6 +77,10 @@ func (unpacker *RtpUnpackerAvcHevc) TryUnpackOne(list *RtpPacketList) (unpackedF
 		// skip后：
 		// rtp中的数据格式 [<2字节的nalu长度>, <nalu>, <2字节的nalu长度>, <nalu> ...]
 		// 转变后的数据格式 [<4字节的nalu长度>, <nalu>, <4字节的nalu长度>, <nalu> ...]
+		if uint32(len(first.Packet.Body())) < skip {
+			Log.Errorf("[%p] invalid STAP-A/AP packet, too short. len=%d", unpacker, len(first.Packet.Body()))
+			return unpacker.dropFirst(list)
+		}
 		buf := first.Packet.Body()[skip:]
 
 		// 使用两次遍历，第一次遍历找出总大小，第二次逐个拷贝，目的是使得内存块一次就申请好，不用动态扩容造成额外性能开销
@@ -84,9 +88,13 @@ func (unpacker *RtpUnpackerAvcHevc) TryUnpackOne(list *RtpPacketList) (unpackedF
 		for i := 0; i != len(buf); {
 			if len(buf)-i < 2 {
 				Log.Errorf("[%p] invalid STAP-A packet. len(buf)=%d, i=%d", unpacker, len(buf), i)
-				return false, 0
+				return unpacker.dropFirst(list)
 			}
 			naluSize := int(bele.BeUint16(buf[i:]))
+			if len(buf)-i-2 < naluSize {
+				Log.Errorf("[%p] invalid STAP-A packet. len(buf)=%d, i=%d, naluSize=%d", unpacker, len(buf), i, naluSize)
+				return unpacker.dropFirst(list)
+			}
 			totalSize += 4 + naluSize
 			i += 2 + naluSize
 		}
@@ -207,10 +215,20 @@ func (unpacker *RtpUnpackerAvcHevc) TryUnpackOne(list *RtpPacketList) (unpackedF
 	case PositionTypeFuaEnd:
 		// noop
 	default:
+		// 无法识别的包（类型不支持，或者长度不合法）直接丢弃，否则会一直堵在队列头部
 		Log.Errorf("invalid position. pos=%d", first.Packet.positionType)
+		return unpacker.dropFirst(list)
 	}
 
 	return false, 0
+}
+
+// dropFirst 丢弃队列头部的非法包，返回值含义同 TryUnpackOne
+func (unpacker *RtpUnpackerAvcHevc) dropFirst(list *RtpPacketList) (unpackedFlag bool, unpackedSeq uint16) {
+	first := list.Head.Next
+	list.Head.Next = first.Next
+	list.Size--
+	return true, first.Packet.Header.Seq
 }
 
 func calcPositionIfNeededAvc(pkt *RtpPacket) {
@@ -229,6 +247,10 @@ func calcPositionIfNeededAvc(pkt *RtpPacket) {
 		pkt.positionType = PositionTypeSingle
 		return
 	} else if outerNaluType == NaluTypeAvcFua {
+		if len(b) < 2 {
+			Log.Errorf("invalid FU-A packet, too short. header=%+v, len=%d", pkt.Header, len(pkt.Raw))
+			return
+		}
 
 		// rfc3984 5.8.  Fragmentation Units (FUs)
 		//
@@ -305,6 +327,10 @@ func calcPositionIfNeededHevc(pkt *RtpPacket) {
 	}
 
 	if outerNaluType == NaluTypeHevcFua {
+		if len(b) < 3 {
+			Log.Errorf("invalid FU packet, too short. header=%+v, len=%d", pkt.Header, len(pkt.Raw))
+			return
+		}
 		// Figure 1: The Structure of the HEVC NAL Unit Header
 
 		// 0                   1                   2                   3
